@@ -36,11 +36,13 @@ type Gate struct {
 	afterMark  []string
 	inAtMark   int
 	labelCount map[string]int64
+	inLabels   map[string]int // labels of the calls currently inside
+	markLabels []string       // labels inside at the moment of Mark
 }
 
 // NewGate returns a gate; open decides its initial state.
 func NewGate(open bool) *Gate {
-	g := &Gate{ch: make(chan struct{}), changed: make(chan struct{}), labelCount: make(map[string]int64)}
+	g := &Gate{ch: make(chan struct{}), changed: make(chan struct{}), labelCount: make(map[string]int64), inLabels: make(map[string]int)}
 	if open {
 		g.isOpen = true
 		close(g.ch)
@@ -96,6 +98,7 @@ func (g *Gate) Through(label string, park bool) (exit func()) {
 	g.inflight++
 	g.entries++
 	g.labelCount[label]++
+	g.inLabels[label]++
 	if g.inflight > g.maxIn {
 		g.maxIn = g.inflight
 	}
@@ -136,6 +139,9 @@ func (g *Gate) Through(label string, park bool) (exit func()) {
 	return func() {
 		g.mu.Lock()
 		g.inflight--
+		if g.inLabels[label]--; g.inLabels[label] <= 0 {
+			delete(g.inLabels, label)
+		}
 		g.exits++
 		g.bump()
 		g.mu.Unlock()
@@ -176,7 +182,17 @@ func (g *Gate) Mark() (inflightAtMark int) {
 	defer g.mu.Unlock()
 	g.marked = true
 	g.inAtMark = g.inflight
+	for l := range g.inLabels {
+		g.markLabels = append(g.markLabels, l)
+	}
 	return g.inflight
+}
+
+// MarkLabels returns the labels of the calls that were inside at Mark.
+func (g *Gate) MarkLabels() []string {
+	g.mu.Lock()
+	defer g.mu.Unlock()
+	return append([]string(nil), g.markLabels...)
 }
 
 // WaitFor blocks until cond holds for the gate's snapshot or the timeout
